@@ -83,9 +83,13 @@ class _Ev:
             if all(isinstance(e, ast.Slice) or (isinstance(e, ast.Constant) and e.value is None) for e in (sl.elts if isinstance(sl, ast.Tuple) else [sl])):
                 return (k, c)
             raise Skip()
+        if isinstance(n, ast.Attribute) and n.attr == "T":
+            return self.ev(n.value)                      # (N, 3) -> (3, N): the same three coordinate columns
         if isinstance(n, ast.Call):
             f = ast.unparse(n.func)
             short = f.split(".")[-1]
+            if short in ("stack", "column_stack") and n.args and isinstance(n.args[0], (ast.Tuple, ast.List)) and len(n.args[0].elts) == 3:
+                return self.ev(n.args[0])                # three per-simplex scalars side by side: a vector
             if short == "cross" and len(n.args) >= 2:
                 (ka, a), (kb, b) = self.ev(n.args[0]), self.ev(n.args[1])
                 if ka == kb == "vec":
@@ -282,6 +286,27 @@ def check_function(fn_node, methods=None):
                             bad.append((tname0, block[i].lineno, (a, b)))
                             break
         for s in block[i + 1:]:
+            if isinstance(s, ast.Assign) and len(s.targets) == 1 and isinstance(s.targets[0], ast.Tuple):
+                # (ux, uy, uz), (vx, vy, vz) = (b - a).T, (c - a).T   |   x, y, z = v.T : components bound one by one
+                def _bind(t_, v_node=None, val_=None):
+                    if val_ is None:
+                        try:
+                            val_ = ev.ev(v_node)
+                        except Skip:
+                            return
+                    if isinstance(t_, ast.Name):
+                        env[t_.id] = val_
+                    elif isinstance(t_, ast.Tuple) and val_[0] == "vec" and len(t_.elts) == len(val_[1]):
+                        for e_, c_ in zip(t_.elts, val_[1]):
+                            if isinstance(e_, ast.Name):
+                                env[e_.id] = ("scal", [c_])
+                tt = s.targets[0]
+                if isinstance(s.value, ast.Tuple) and len(s.value.elts) == len(tt.elts):
+                    for t_, v_ in zip(tt.elts, s.value.elts):
+                        _bind(t_, v_node=v_)
+                else:
+                    _bind(tt, v_node=s.value)
+                continue
             if isinstance(s, ast.Assign) and len(s.targets) == 1 and isinstance(s.targets[0], ast.Name):
                 tname = s.targets[0].id
                 try:
